@@ -163,10 +163,10 @@ func checkC03(c *Ctx) {
 	scan := "constant-time table scan consumes 15x18 words of a slice that the only caller takes from the 540-word comb table at offset 0 or 270 (sizes pinned by K-C03-tables); loop-carried slice length"
 	exempt := map[string]string{
 		"B-IDX|sm2.sm2GenrateWNaf|index ?*ssa.MakeSlice[?phi1+?phi2] #1": wnaf,
-		"B-IDX|sm2.sm2GenrateWNaf|make make(?phi1+1) #1":                   wnaf,
-		"B-IDX|sm2.sm2GenrateWNaf|slice ?*ssa.MakeSlice[0:?phi1+1] #1":     wnaf,
-		"B-IDX|sm2.sm2P256SelectAffinePoint|index ?phi1[0] #1":             scan,
-		"B-IDX|sm2.sm2P256SelectAffinePoint|index ?phi1[0] #2":             scan,
+		"B-IDX|sm2.sm2GenrateWNaf|make make(?phi1+1) #1":                 wnaf,
+		"B-IDX|sm2.sm2GenrateWNaf|slice ?*ssa.MakeSlice[0:?phi1+1] #1":   wnaf,
+		"B-IDX|sm2.sm2P256SelectAffinePoint|index ?phi1[0] #1":           scan,
+		"B-IDX|sm2.sm2P256SelectAffinePoint|index ?phi1[0] #2":           scan,
 	}
 	st := bidx(c, "B-IDX", fs, exempt)
 	c.Notes = append(c.Notes, fmt.Sprintf("B-IDX: %d sites, %d by the compiler prove pass, %d by LinBounds, %d not proven", st.sites, st.compiler, st.lin, st.unproved))
